@@ -192,7 +192,21 @@ pub fn run_decode(r: &mut StdRng, shape: &Value) -> (Value, String) {
     let b = build(r, shape);
     let ctx = ctx_with_ext(&b.bytes).expect("group context");
     match NostrGroupDataExtension::from_group_context(&ctx) {
-        Err(e) => (json!({"res":"refuse","ver":-1,"hash":false,"key":false,"nonce":false,"upload":false,"equal":false,"err":format!("{e:?}").chars().take(60).collect::<String>()}), b.detail),
+        Err(e) => {
+            let es = format!("{e:?}");
+            // error class = which check of the parser refused (diagnostic view only)
+            let ecls = if es.starts_with("Tls(") { "tls" }
+                else if es.starts_with("ExtensionFormatError") { "trailing" }
+                else if es.starts_with("InvalidExtensionVersion") { "version" }
+                else if es.starts_with("Utf8(") || es.starts_with("FromUtf8") { "utf8" }
+                else if es.starts_with("RelayUrl(") { "relay_url" }
+                else if es.starts_with("InvalidImageHashLength") { "hash_len" }
+                else if es.starts_with("InvalidImageKeyLength") { "key_len" }
+                else if es.starts_with("InvalidImageNonceLength") { "nonce_len" }
+                else if es.starts_with("InvalidImageUploadKeyLength") { "upload_len" }
+                else { "other" };
+            (json!({"res":"refuse","ver":-1,"hash":false,"key":false,"nonce":false,"upload":false,"equal":false,"ecls":ecls,"err":es.chars().take(60).collect::<String>()}), b.detail)
+        }
         Ok(v) => {
             let p = pres(&v);
             let equal = v.nostr_group_id.as_slice() == b.raw.nid.as_slice()
@@ -204,7 +218,7 @@ pub fn run_decode(r: &mut StdRng, shape: &Value) -> (Value, String) {
                 && v.image_key.map(|x| x.to_vec()).unwrap_or_default() == b.raw.key
                 && v.image_nonce.map(|x| x.to_vec()).unwrap_or_default() == b.raw.nonce
                 && v.image_upload_key.map(|x| x.to_vec()).unwrap_or_default() == b.raw.upload;
-            (json!({"res":"accept","ver":v.version,"hash":p[0],"key":p[1],"nonce":p[2],"upload":p[3],"equal":equal,"err":""}), b.detail)
+            (json!({"res":"accept","ver":v.version,"hash":p[0],"key":p[1],"nonce":p[2],"upload":p[3],"equal":equal,"ecls":"ok","err":""}), b.detail)
         }
     }
 }
